@@ -369,7 +369,15 @@ def r9(ctx):
         for x in sorted(inloop):
             v = fn.nodes[x]
             if v['k'] == 'BreakStmt':
-                atoms = set((a[0], a[1]) for a in fn.atoms(x))
+                # a test of the result counts only if the result is not assigned again between the test and the break
+                # (if (result == OK) { result = decode(...); break; } leaves with whatever decode() returned)
+                rwrites = [fn.line_of(n2) for n2, d2, r2, o2, l2 in fn.assignments() if d2 and d2.split(':')[-1] == rn and o2 != 'init']
+                atoms = set()
+                for a in fn.atoms(x):
+                    stale = ('%s ' % rn in a[0] or '(%s' % rn in a[0]) and len(a) > 2 and a[2] is not None and \
+                        any(fn.line_of(a[2]) <= w <= fn.line_of(x) for w in rwrites)
+                    if not stale:
+                        atoms.add((a[0], a[1]))
 
                 def fine(at):
                     return ('(%s < #0)' % rn, False) in at or ('(%s == #0)' % rn, True) in at or ('(%s == #0)' % tmo, True) in at or \
@@ -380,7 +388,7 @@ def r9(ctx):
                     p_ = fn.parent(x)
                     while p_ is not None and fn.nodes[p_]['k'] != 'IfStmt':
                         p_ = fn.parent(p_)
-                    if p_ is not None:
+                    if p_ is not None and not any(fn.line_of(fn.nodes[p_]['cond']) <= w <= fn.line_of(x) for w in rwrites):
                         dnf = facts.implied(fn, fn.nodes[p_]['cond'], True)
                         ok = bool(dnf) and all(fine(atoms | set(facts.atom_key(fn, a) for a in conj)) for conj in dnf)
                 ctx.ob('C03.R9', fn, x, ok, 'loop exit in %s' % name.split('::')[-2], 'taken with a result, a zero timeout or an expired deadline: %s' % ok)
@@ -740,6 +748,8 @@ def r22(ctx):
 
 
 def run(ctx):
+    import rules.C04 as _c04s
+    ctx.borrow(_c04s.r15, {'C04.R15': 'C03.R23'}, 'ebusd acknowledges only responses of its own exchange: a request that stays current over a SYN makes it write ACK and SYN into the next foreign telegram')
     r22(ctx)
     import rules.common as _cm
     ctx.rule('C03.R21', "a value is compared with a constant in the domain of its own type: in the sources of this property every comparison of a variable, member, element or call result with an integer constant (==, !=) has the constant inside the value range of the operand's own integer type before promotion - a symbol held in a signed char never equals 0xA9/0xAA/0xFE, so the escape, SYN or broadcast test behind it is dead for exactly the symbols it exists for", minimum=60)
